@@ -3,6 +3,7 @@ package brigadier
 import (
 	"fmt"
 	"io"
+	"math"
 	"strconv"
 
 	"go.minekube.com/brigodier"
@@ -322,8 +323,10 @@ var (
 			if !ok {
 				return fmt.Errorf("expected *brigodier.Int64ArgumentType but got %T", v)
 			}
-			hasMin := i.Min != brigodier.MinInt64
-			hasMax := i.Max != brigodier.MaxInt64
+			// brigadier:long defaults to the full int64 range on the wire
+			// (brigodier.MinInt64 is math.MinInt32 and must not be used as the wire default).
+			hasMin := i.Min != math.MinInt64
+			hasMax := i.Max != math.MaxInt64
 			flag := flags(hasMin, hasMax)
 
 			err := util.WriteByte(wr, flag)
@@ -346,8 +349,8 @@ var (
 			if err != nil {
 				return nil, err
 			}
-			min := int64(brigodier.MinInt64)
-			max := int64(brigodier.MaxInt64)
+			min := int64(math.MinInt64)
+			max := int64(math.MaxInt64)
 			if flags&HasMinIntFlag != 0 {
 				min, err = util.ReadInt64(rd)
 				if err != nil {
